@@ -7,7 +7,7 @@ import harness.core  # noqa: F401
 from harness.core import Sub
 from harness import gen, oracle
 from harness.oracle import dense
-from harness.doubles import poison_heap
+from harness.doubles import poison_heap, Objective
 
 import teneva
 
@@ -243,6 +243,29 @@ def prop(case, ctx):
         check_tt(ctx, Z, n, f"cross on a {case['data']} target")
         ctx.check(not (isinstance(info["e"], float) and math.isnan(info["e"])) and not np.isnan(info["e"]), "cross: info['e'] is NaN", e=repr(info["e"]))
         ctx.check(np.isfinite(info["r"]), "cross: info['r'] not finite")
+        # the same run cut short at every point (evaluation budget, objective returning None at its k-th call): what is handed back
+        # for a degenerate target must be a well-formed finite tensor too
+        kwc = dict(nswp=2 + fl % 2, dr_min=1 if growth else 0, dr_max=1 if growth else 0)
+        if case["seed"] % 6:
+            return          # (the interruption enumeration runs for a sixth of the cross cases: ~30 runs each)
+        ctx.label("cross_interruptions_enumerated")
+        ref = Objective(F)
+        plib(teneva.cross, ref, Y0, info={}, **kwc)
+        M, K = ref.evaluated, ref.calls
+        for m_ in sorted(set(list(range(1, min(M, 12) + 1)) + list(range(13, M, max(1, M // 12))) + [M - 1, M, M + 1])):
+            if m_ < 1:
+                continue
+            inf_ = {}
+            Zm = plib(teneva.cross, Objective(F), Y0, m=m_, info=inf_, cache={} if fl & 8 else None, **kwc)
+            check_tt(ctx, Zm, n, f"cross on a {case['data']} target stopped by the budget m={m_}")
+            ctx.check(not np.isnan(inf_["e"]) and np.isfinite(inf_["r"]), "cross (budget stop): info['e'] is NaN or info['r'] not finite", m=m_, e=repr(inf_["e"]))
+            ctx.inner(1)
+        for k_ in range(1, K + 1):
+            inf_ = {}
+            Zk = plib(teneva.cross, Objective(F, none_at=k_), Y0, info=inf_, **kwc)
+            check_tt(ctx, Zk, n, f"cross on a {case['data']} target interrupted at objective call {k_}")
+            ctx.check(inf_["stop"] == "func" and not np.isnan(inf_["e"]), "cross (objective returned None): stop reason / info['e']", k=k_, stop=inf_["stop"], e=repr(inf_["e"]))
+            ctx.inner(1)
     elif routine == "als":
         n = case["n"]
         d = len(n)
